@@ -572,7 +572,7 @@ theorem listed_facts (roc : Str) (groups : List Str) (id : Str) :
     listed roc groups id = groups.any fun g => id == g || g == roc := by
   simp [listed, Generated.listShape, Generated.listAtoms, evalAtoms, evalAtom, operand]
 
-theorem reportAllTargets_facts (oidc rocEnv : Str) (groups entities : List Str) :
+theorem reportAllTargets_facts (oidc : Str) (rocEnv : Option Str) (groups entities : List Str) :
     reportAllTargets oidc rocEnv groups entities =
       if oidc ≠ [] then entities.filter (fun id => groups.any fun g => id == g || g == rocAdmin rocEnv)
       else entities := by
@@ -586,5 +586,26 @@ theorem reportAllTargets_facts (oidc rocEnv : Str) (groups entities : List Str) 
     congr 1
     funext id
     exact listed_facts _ _ _
+
+/-- the ROC-admin group name under the current override rule: the default, or a non-empty override. -/
+theorem rocAdmin_facts (rocEnv : Option Str) :
+    rocAdmin rocEnv =
+      match rocEnv with
+      | some v => if v = [] then Generated.listRocDefault.toList else v
+      | none => Generated.listRocDefault.toList := by
+  unfold rocAdmin
+  simp only [Generated.listRocOverride]
+  cases rocEnv <;> rfl
+
+/-- the ROC-admin group name is never the empty string. -/
+theorem rocAdmin_ne_nil (rocEnv : Option Str) : rocAdmin rocEnv ≠ [] := by
+  rw [rocAdmin_facts]
+  have hd : Generated.listRocDefault.toList ≠ [] := by decide
+  cases rocEnv with
+  | none => exact hd
+  | some v =>
+    by_cases hv : v = []
+    · simp only [hv, if_true]; exact hd
+    · simp only [hv, if_false]; exact hv
 
 end OnosVerif.Rbac
